@@ -575,6 +575,10 @@ INT_TYPES10 = ['u8', 'i8', 'u16', 'i16', 'u32', 'i32', 'u64', 'i64', 'i128', 'u1
 
 
 def plan_C14(c):
+    # design level: integral test by remainder + range of the target type (into_int.rs) refines IntoIntKind; the round-trip-cast variant is rejected
+    c.mc('MC_Refine', cfg='MC_Refine_cast_range', expect='violation')
+    if c.tier != 'quick':
+        c.mc('MC_Refine', cfg='MC_Refine_ok_full')
     # d * 10^k for every small d and every k, written with f <= min(k, 18) fractional digits (integral), and the
     # same coefficient + 1 (non-integral when f > 0); the target type rotates over all ten types
     MAXC = 2**127 - 1
@@ -608,6 +612,11 @@ def plan_C15(c):
     c.mc('MC_SpecLaws', cfg='MC_SpecLaws' if c.tier != 'quick' else 'MC_SpecLaws_quick')
     c.mc('MC_Refine', cfg='MC_Refine_tight')      # non-vacuity of the oracle: neighbouring coefficients and wrong failure signals are rejected
     c.mc('MC_Refine', cfg='MC_Refine_floor_sign', expect='violation')      # unops.rs: floor that tests the dividend instead of the remainder (seed C15-e)
+    # magnitude: the branch-free decimal logarithm at full size - both bit tricks for every argument, the ladder on every power of 2 / 10 +- 1
+    c.mc('MC_Log10', cfg='MC_Log10_small')
+    c.mc('MC_Log10', cfg='MC_Log10_ladder')
+    c.mc('MC_Log10', cfg='MC_Log10_c4', expect='violation')
+    c.mc('MC_Log10', cfg='MC_Log10_ladder16', expect='violation')
     uops = ['floor', 'ceil', 'trunc', 'fract', 'abs', 'nt_abs', 'neg', 'neg_ref', 'signum']
     oops = ['magnitude', 'eq_zero', 'eq_one', 'is_negative', 'is_positive', 'is_zero', 'is_one', 'nt_is_negative', 'nt_is_positive']
     # every single point (powers of two / ten / five with neighbours, scaling bounds) x every scale; three unary and three
